@@ -6,7 +6,7 @@ callees derived through chains with different mod-sets, and the neighbouring
 rewrites around config reads/writes), depth 2/3, all initial control-typed
 configuration states; oracle = C01 equivalence where exactly the fields the
 system reports are exempt."""
-from vf import explore, seeds, oracles, findings
+from vf import explore, seeds, oracles, findings, plans
 from vf.checks import c01
 from vf.checks.c01 import fill_evidence, replay  # noqa
 
@@ -26,12 +26,21 @@ class Oracle(c01.Oracle):
         super().after(ev, q, exc, outcome)
 
 
+# operations driven over the generated configuration-dataflow family (729 programs, depth 1)
+CFGGEN_OPS = ["delete_config", "write_config", "reorder_stmts", "remove_loop", "unroll_loop", "eliminate_dead_code",
+              "fuse", "lift_scope", "inline", "merge_writes", "simplify"]
+
+
 def run(rep):
     tier = rep.tier
     names = [s.name for s in seeds.SEEDS if s.group == "config"]
+    gen = [s.name for s in seeds.cfg_seeds()]
     if tier == "quick":
-        st = explore.explore(rep, names, "vf.checks.c10", tier, depth=2, root_parts=8, ops=CONFIG_OPS, max_states_per_level=400)
+        phases = [{"label": "A:config-seeds-depth2", "seeds": names, "depth": 2, "root_parts": 8, "ops": CONFIG_OPS, "max_states_per_level": 400},
+                  {"label": "B:cfggen-depth1", "seeds": gen, "depth": 1, "root_parts": 1, "ops": CFGGEN_OPS}]
     else:
-        st = explore.explore(rep, names, "vf.checks.c10", tier, depth=3, root_parts=8, ops=CONFIG_OPS, max_states_per_level=4000,
-                             time_budget_s=2400)
+        phases = [{"label": "B:cfggen-depth1", "seeds": gen, "depth": 1, "root_parts": 1, "ops": CFGGEN_OPS},
+                  {"label": "A:config-seeds-depth3", "seeds": names, "depth": 3, "root_parts": 8, "ops": CONFIG_OPS,
+                   "max_states_per_level": 4000, "time_budget_s": 2400}]
+    st = plans.run_plan(rep, "vf.checks.c10", tier, phases)
     fill_evidence(rep, st)
